@@ -14,8 +14,8 @@ Drain(ts, ps, all) ==
     IF ts.out = <<>> THEN [ts |-> ts, ps |-> ps]
     ELSE LET tok == ts.out[1] IN
          IF ~all /\ Len(ts.out) = 1 /\ tok.t = "Character" THEN [ts |-> ts, ps |-> ps]
-         ELSE LET p1 == TreeStep(ps, tok, QuirksTables)
-                  t1 == [ts EXCEPT !.out = Tail(@)]
+         ELSE LET p1 == TreeStep(ps, tok, ts.bk[1], QuirksTables)
+                  t1 == [ts EXCEPT !.out = Tail(@), !.bk = Tail(@)]
                   t2 == IF tok.t = "StartTag" /\ p1.tokReq # "" THEN [t1 EXCEPT !.st = p1.tokReq] ELSE t1
               IN Drain(t2, p1, all)
 
